@@ -56,6 +56,19 @@ func (e *Env) ElementCandidates() []string {
 	for _, n := range e.Spec.AllowedElementNames() {
 		add(n, 3)
 	}
+	// look-alikes of allowed names: runes that Unicode case mapping/folding turns into ASCII
+	// letters (U+212A -> k, U+0130 -> i, U+017F -> s); browsers and the tokenizer lower-case
+	// ASCII only, so these are different, unlisted elements
+	for _, n := range e.Spec.AllowedElementNames() {
+		for _, sub := range [][2]string{{"k", "\u212a"}, {"i", "\u0130"}, {"s", "\u017f"}} {
+			if i := strings.Index(n[1:], sub[0]); i >= 0 && len(n) > 1 {
+				v := n[:1+i] + sub[1] + n[1+i+1:]
+				if !seen[v] && !e.Spec.ElementAllowed(v) {
+					add(v, 1)
+				}
+			}
+		}
+	}
 	for _, n := range allElementVocab {
 		if !seen[n] && e.Spec.ElementAllowed(n) {
 			add(n, 2)
